@@ -718,6 +718,10 @@ impl Ctx {
     pub fn yield_now(&self) {
         yield_point(&self.sim, self.me);
     }
+    /// Spawn another simulated foreground thread from this one (it becomes schedulable at once).
+    pub fn spawn<F: FnOnce(&Ctx) + Send + 'static>(&self, name: &str, f: F) -> usize {
+        self.sim.spawn(name, false, f)
+    }
     /// Block until every other foreground thread has finished.
     pub fn wait_quiescent(&self) {
         let mut st = self.sim.st.lock().unwrap();
